@@ -69,6 +69,9 @@ func c07Schema(r *rand.Rand) models.IndexSchema {
 
 func (c07) Generate(r *rand.Rand, tier string) (sim.Config, any) {
 	cfg := RandomSimConfig(r)
+	old := vecStyle
+	vecStyle = pickVecStyle(r)
+	defer func() { vecStyle = old }()
 	p := c07Params{Schema: c07Schema(r), MaxPointSize: 400 + r.IntN(400), IDPool: 14 + r.IntN(10)}
 	p.CacheSize = pick(r, []int64{-1, -1, -1, 1 << 20, 3000})
 	nops := 3 + r.IntN(6)
